@@ -2,7 +2,8 @@
 from reg._common import COMMON_ASSUME
 
 ENTRY = {
-    'lean_files': ['Tables/C10.lean', 'Props/C10.lean', 'Tables/C10Triangle.lean', 'Props/C10Triangle.lean', 'Props/C10Rounding.lean'],
+    'extractors': ['translate_py.py', 'translate_f90.py'],
+    'lean_files': ['Tables/SrcF90Triangle.lean', 'Tables/SrcPyTriangleSub.lean', 'Tables/SrcPyTriangle.lean', 'Tables/C10.lean', 'Props/C10.lean', 'Tables/C10Triangle.lean', 'Props/C10Triangle.lean', 'Props/C10Rounding.lean'],
     'lemma_files': ['Lemmas/RoundingDeriv.lean', 'Lemmas/RoundingMore.lean', 'Lemmas/Rounding.lean', 'Lemmas/LocateTri.lean', 'Model/LocateTri.lean', 'Model/Triangle.lean', 'Model/TriDeriv.lean', 'Model/Helpers.lean', 'Lemmas/Locate.lean', 'Lemmas/Subdivide.lean', 'Lemmas/Bridge.lean', 'Model/Basic.lean', 'Model/Curve.lean', 'Model/Locate.lean'],
     'script': 'props/c10.py',
     'scripts': ['props/c10.py', 'props/c10t.py'],
